@@ -20,7 +20,10 @@ PROFILES = [
     ('sel_con', .15, dict(p_incompat=.3, p_constraint=1.0, n_steps=(5, 10))),
     ('dv', .2, dict(p_incompat=.2, n_dv=(1, 3), p_dv_link=.4, n_metric=(0, 2), n_steps=(3, 8))),
     ('conn', .15, dict(p_incompat=.15, n_conn=(1, 1), n_steps=(2, 5), max_sel=2, max_opts=3, max_side=2, n_dv=(0, 1))),
-    ('dup_id', .2, dict(p_incompat=.3, p_dup_id=.7, n_dv=(0, 2), p_multi_choice=.3)),
+    ('dup_id', .14, dict(p_incompat=.3, p_dup_id=.7, n_dv=(0, 2), p_multi_choice=.3)),
+    # a node that is an option of several choices gets its option id from the first one: options of the other choice
+    # can then tie on (decision id, option id)
+    ('shared_option', .06, dict(allow=('shared_option',), p_incompat=.2, p_opt_existing=.5, p_multi_choice=.3)),
 ]
 
 
@@ -30,6 +33,8 @@ def case_spec(seed, i):
     acc = 0
     if r > .93:
         return 'replica', gen.gen_replica(rnd)
+    if r > .88:
+        return 'option_tie', gen.gen_option_tie(rnd)
     for name, w, kw in PROFILES:
         acc += w
         if r < acc:
